@@ -51,7 +51,7 @@ def main():
     a = sys.argv[1:]
     sd = os.path.abspath(a[0])
     meta = json.load(open(os.path.join(sd, "meta.json")))
-    props = [meta["property"]]
+    props = [meta["property"]] if "property" in meta else []
     validate = "--validate" in a
     tier = "quick"
     if "--props" in a:
@@ -60,7 +60,7 @@ def main():
         props = [c["property_id"] for c in json.load(open(os.path.join(ROOT, "MANIFEST.json")))["checks"]]
     if "--tier" in a:
         tier = a[a.index("--tier") + 1]
-    res = {"seed": os.path.basename(sd), "property": meta["property"], "at": time.strftime("%Y-%m-%dT%H:%M:%SZ", time.gmtime()),
+    res = {"seed": os.path.basename(sd), "property": meta.get("property", meta.get("package", "")), "at": time.strftime("%Y-%m-%dT%H:%M:%SZ", time.gmtime()),
            "repo_head": sh("git -C /repo rev-parse --short HEAD")[1].strip(), "checks": {}}
     wt = mkwt()
     try:
